@@ -7,34 +7,6 @@ Line-protocol glue for the `cconv` probe (real `smtp.Client` against a scripted 
 namespace SmtpV.Driver.ClientGlue
 open SmtpV SmtpV.Client
 
-/-- civil date from days since 1970-01-01 (proleptic Gregorian) -/
-def civilFromDays (z0 : Int) : Int × Int × Int :=
-  let z := z0 + 719468
-  let era := (if z ≥ 0 then z else z - 146096) / 146097
-  let doe := z - era * 146097
-  let yoe := (doe - doe / 1460 + doe / 36524 - doe / 146096) / 365
-  let y := yoe + era * 400
-  let doy := doe - (365 * yoe + yoe / 4 - yoe / 100)
-  let mp := (5 * doy + 2) / 153
-  let d := doy - (153 * mp + 2) / 5 + 1
-  let m := if mp < 10 then mp + 3 else mp - 9
-  (if m ≤ 2 then y + 1 else y, m, d)
-
-def pad (n : Int) (w : Nat) : String :=
-  let s := toString n.toNat
-  String.ofList (List.replicate (w - s.length) '0') ++ s
-
-/-- `time.Unix(n, 0).In(FixedZone("", off)).Format(time.RFC3339)` for years 0..9999 and whole-minute offsets -/
-def formatRFC3339 (unix : Int) (off : Int := 0) : Bytes :=
-  let loc := unix + off
-  let days := loc.fdiv 86400
-  let secs := loc - days * 86400
-  let (y, m, d) := civilFromDays days
-  let zone := if off == 0 then "Z" else
-    let a := off.natAbs
-    (if off < 0 then "-" else "+") ++ s!"{pad (a / 3600) 2}:{pad ((a % 3600) / 60) 2}"
-  (s!"{pad y 4}-{pad m 2}-{pad d 2}T{pad (secs / 3600) 2}:{pad ((secs % 3600) / 60) 2}:{pad (secs % 60) 2}" ++ zone).b
-
 def parseMailOptions (s : String) : Option MailOptions :=
   if s == "-" then none else
   let m := Conv.kvs s
@@ -52,8 +24,8 @@ def parseRcptOptions (s : String) : Option RcptOptions :=
          orcpt := bytesOfHex (l "orcpt"),
          rrvs := if l "rrvs" == "nil" || l "rrvs" == "" then none else
            match (l "rrvs").splitOn "@" with
-           | [n, off] => some (formatRFC3339 (Conv.intOf n) (Conv.intOf off))
-           | _ => some (formatRFC3339 (Conv.intOf (l "rrvs"))) }
+           | [n, off] => some (Conv.intOf n, Conv.intOf off)
+           | _ => some (Conv.intOf (l "rrvs"), 0) }
 
 def parseCall (s : String) : Option Call :=
   match s.splitOn "/" with
